@@ -99,6 +99,11 @@ def cases(tier, seed):
         for mask in range(64):
             yield "colmap", dict(fmt=fmt, mask=mask)
         yield "colmap_prefix", dict(fmt=fmt)
+        for mi, mode in enumerate(CLI_MODES):
+            for ri, rmask in enumerate(CLI_RENAMES):
+                if q and (mi + ri + FORMATS.index(fmt)) % 3:
+                    continue
+                yield "cli", dict(fmt=fmt, mode=mode, mask=rmask, model=(mi + ri) % 2)
     k = 0
     for proj, loc, sh in combos(True):
         for n, si, pa, sign, phase in itertools.product(["1", "2opp"] if q else ["1", "2same", "2opp"], range(len(SIZES)),
@@ -750,8 +755,92 @@ def ev_colmap_prefix(case, ctx):
     ctx.outcome("colmap_prefix:same" if _same_sources(ctx, got, srcs, sig, "prefixed columns") else "colmap_prefix:differs")
 
 
+CLI_FLAG = dict(ra="--racol", dec="--deccol", peak_flux="--peakcol", a="--acol", b="--bcol", pa="--pacol")
+CLI_MODES = [["sub"], ["add"], ["mask"], ["mask", "sigma", 10.0], ["mask", "sigma", 25.0], ["mask", "frac", 0.5], ["mask", "frac", 0.9],
+             ["frac_only", 0.5], ["add", "mask", "frac", 0.5]]
+CLI_RENAMES = [0, 63, 1, 2, 4, 8, 16, 32, 0b101010]
+
+
+def ev_cli(case, ctx):
+    """the AeRes command line produces what the API produces for the same options (the API is judged by the other clauses)"""
+    from AegeanTools import AeRes
+    from AegeanTools.CLI import AeRes as cli
+    hdr, wh, shape, srcs = _colmap_scene(ctx)
+    fmt, mode = case["fmt"], case["mode"]
+    renamed = [c for i, c in enumerate(COLS) if case["mask"] >> i & 1]
+    rename = {c: ALTNAME[c] for c in renamed}
+    kw = {COLARG[c]: ALTNAME[c] for c in renamed}
+    sig = "cli:%s,%s,renamed=%s,model=%d" % (fmt, "/".join(str(x) for x in mode), "+".join(renamed) or "none", case["model"])
+    ctx.count("cli")
+    ctx.nontrivial(sig)
+    cat, f, r0, r1, m0, m1 = _scratch("c14cli." + fmt, "c14cli_i.fits", "c14cli_r0.fits", "c14cli_r1.fits", "c14cli_m0.fits", "c14cli_m1.fits")
+    argv = ["-c", cat, "-f", f, "-r", r1]
+    api = dict(add=False, mask=False, frac=None, sigma=4)
+    if "add" in mode:
+        argv.append("--add")
+        api["add"] = True
+    if "mask" in mode:
+        argv.append("--mask")
+        api["mask"] = True
+    if "sigma" in mode:
+        argv += ["--sigma", repr(mode[mode.index("sigma") + 1])]
+        api["sigma"] = mode[mode.index("sigma") + 1]
+    if "frac" in mode:
+        argv += ["--frac", repr(mode[mode.index("frac") + 1])]
+        api["frac"] = mode[mode.index("frac") + 1]
+    if mode[0] == "frac_only":      # --frac without --mask: nothing is masked
+        argv += ["--frac", repr(mode[1])]
+        api["frac"] = mode[1]
+    for c in renamed:
+        argv += [CLI_FLAG[c], ALTNAME[c]]
+    if case["model"]:
+        argv += ["-m", m1]
+    try:
+        t = _table(srcs, rename)
+        t["local_rms"] = [0.02 * abs(s["peak"]) for s in srcs]
+        _write_table(t, cat, fmt)
+        rs = np.random.RandomState(1478)
+        scenes.write_image(f, hdr, rs.normal(0, 1, size=shape))
+        try:
+            AeRes.make_residual(f, cat, r0, mfile=m0 if case["model"] else None, colmap=kw, **api)
+            rc = cli.main(argv)
+        except BaseException as e:
+            ctx.violation("AeRes %s raised %r (%s)" % (" ".join(argv[6:]), e, sig), "cli_raise|" + sig)
+            ctx.outcome("cli:raise")
+            return
+        outs = [np.array(fits.getdata(p), dtype=np.float64) if os.path.exists(p) else None for p in (r0, r1, m0, m1)]
+        data = np.array(fits.getdata(f), dtype=np.float64)
+    finally:
+        _cleanup([cat, f, r0, r1, m0, m1])
+    a0, a1, mm0, mm1 = outs
+    ok = True
+    if rc != 0 or a0 is None or a1 is None:
+        ctx.violation("AeRes %s returned %r, residual written: %s (API wrote one: %s) (%s)" % (
+            " ".join(argv[6:]), rc, a1 is not None, a0 is not None, sig), "cli_nofile|" + sig)
+        ctx.outcome("cli:nofile")
+        return
+    if not np.array_equal(a0, a1, equal_nan=True):
+        ok = False
+        ctx.violation("AeRes %s: residual differs from make_residual(%r, colmap=%r): %d pixels blank vs %d, largest difference %.4g (%s)" % (
+            " ".join(argv[6:]), api, kw, int(np.isnan(a1).sum()), int(np.isnan(a0).sum()),
+            float(np.nanmax(np.abs(np.nan_to_num(a0) - np.nan_to_num(a1)))), sig), "cli_residual|" + sig)
+    if case["model"] and (mm0 is None or mm1 is None or not np.array_equal(mm0, mm1, equal_nan=True)):
+        ok = False
+        ctx.violation("AeRes %s: model file missing or different from the API's (%s)" % (" ".join(argv[6:]), sig), "cli_model|" + sig)
+    # independent anchor: without --mask the residual is input -/+ the oracle's model; with --mask some pixel is blank
+    # exactly when a threshold can be reached
+    if not api["mask"]:
+        got = (a1 - data) if api["add"] else (data - a1)
+        if not compare_model(ctx, got, hdr, shape, srcs, "AeRes %s" % " ".join(argv[6:]), sig, "cli_model_err"):
+            ok = False
+        if np.isnan(a1).any():
+            ok = False
+            ctx.violation("AeRes %s blanked %d pixels without --mask (%s)" % (" ".join(argv[6:]), int(np.isnan(a1).sum()), sig), "cli_blank|" + sig)
+    ctx.outcome("cli:%s:%s" % (mode[0], "same" if ok else "differs"))
+
+
 CLAUSES = dict(single=ev_single, cat=ev_cat, loop=ev_loop, addsub=ev_addsub, mask=ev_mask, colmap=ev_colmap,
-               colmap_prefix=ev_colmap_prefix)
+               colmap_prefix=ev_colmap_prefix, cli=ev_cli)
 
 
 def evaluate(clause, case, ctx):
